@@ -805,21 +805,31 @@ class DataType(object):
                 raise EDXMLEventValidationError('Invalid datetime value: %s' % repr(value))
         return normalized
 
+    @staticmethod
+    def _format_decimal(value, precision):
+        # Note that we format the decimal itself rather than
+        # converting it to a float, which would loose precision.
+        formatted = format(Decimal(value), '.' + precision + 'f')
+        if formatted.startswith('-') and formatted.strip('-0.') == '':
+            # Zero must not have a sign.
+            formatted = formatted[1:]
+        return formatted
+
     def _normalize_number(self, values):
         split_data_type = self.type.split(':')
 
         if split_data_type[1] == 'decimal':
             decimal_precision = split_data_type[3]
             try:
-                return {('%.' + decimal_precision + 'f') % Decimal(value) for value in values}
-            except (TypeError, decimal.InvalidOperation):
+                return {self._format_decimal(value, decimal_precision) for value in values}
+            except (TypeError, ValueError, decimal.InvalidOperation):
                 raise EDXMLEventValidationError(
                     'Invalid decimal value in list: "%s"' % '","'.join([repr(value) for value in values])
                 )
         elif split_data_type[1] == 'currency':
             try:
-                return {'%.4f' % Decimal(value) for value in values}
-            except (TypeError, decimal.InvalidOperation):
+                return {self._format_decimal(value, '4') for value in values}
+            except (TypeError, ValueError, decimal.InvalidOperation):
                 raise EDXMLEventValidationError(
                     'Invalid currency value in list: "%s"' % '","'.join([repr(value) for value in values])
                 )
